@@ -1124,17 +1124,23 @@ impl TypeSpace {
 
         // See if the value bounds fit within a known type.
         let maybe_type = match (min, max) {
-            (None, Some(max)) => formats.iter().rev().find_map(|(_, ty, _nz_ty, _, imax)| {
-                if (imax - max).abs() <= f64::EPSILON {
-                    Some(ty.to_string())
-                } else {
-                    None
-                }
-            }),
-            (Some(min), None) => formats.iter().rev().find_map(|(_, ty, nz_ty, imin, _)| {
+            // With a single bound the other side is unconstrained so only a
+            // type that extends as far as i64 on that side can represent
+            // every permitted value.
+            (None, Some(max)) => formats
+                .iter()
+                .rev()
+                .find_map(|(_, ty, _nz_ty, imin, imax)| {
+                    if (imax - max).abs() <= f64::EPSILON && *imin <= i64::MIN as f64 {
+                        Some(ty.to_string())
+                    } else {
+                        None
+                    }
+                }),
+            (Some(min), None) => formats.iter().rev().find_map(|(_, ty, nz_ty, imin, imax)| {
                 if min == 1. {
                     Some(nz_ty.to_string())
-                } else if (imin - min).abs() <= f64::EPSILON {
+                } else if (imin - min).abs() <= f64::EPSILON && *imax >= i64::MAX as f64 {
                     Some(ty.to_string())
                 } else {
                     None
